@@ -545,6 +545,23 @@ def _lookup_expression(b: Builder, conn: ast.Module) -> None:
                     and isinstance(n.value, ast.Name) and n.value.id in (TABLE, "PROTO_TO_MESSAGE_TYPE")]
     want = f"MESSAGE_NUMBER_TO_PROTO[{params[0]} - 1]" if params else None
     ok = bool(want) and len(subs) == 1 and _same_code(subs[0], want) and not other_tables
+    if not ok and params and not subs and not other_tables:
+        # the lookup may have been moved into a helper: accept `MESSAGE_NUMBER_TO_PROTO[<p> - 1]` in a function of this module that
+        # process_packet calls with its type parameter in the position of <p>; anything else is not decided here (C12's contract on
+        # process_packet states the selected class semantically)
+        ok = None
+        funcs = {n.name: n for n in ast.walk(conn) if isinstance(n, (ast.FunctionDef, ast.AsyncFunctionDef))}
+        for call in [n for n in ast.walk(target) if isinstance(n, ast.Call)]:
+            fname = call.func.id if isinstance(call.func, ast.Name) else (call.func.attr if isinstance(call.func, ast.Attribute) else None)
+            helper = funcs.get(fname)
+            if helper is None or helper is target:
+                continue
+            hp = [a.arg for a in helper.args.args if a.arg not in ("self", "cls")]
+            hsubs = [n for n in ast.walk(helper) if isinstance(n, ast.Subscript) and isinstance(n.value, ast.Name) and n.value.id == "MESSAGE_NUMBER_TO_PROTO"]
+            for i, a in enumerate(call.args):
+                if isinstance(a, ast.Name) and a.id == params[0] and i < len(hp) and len(hsubs) == 1 and _same_code(hsubs[0], f"MESSAGE_NUMBER_TO_PROTO[{hp[i]} - 1]"):
+                    ok = True
+                    subs = hsubs
     b.add("connection.APIConnection.process_packet/lookup-is-id-minus-one",
           f"process_packet selects the class by `{want}` and by nothing else", fn, ok,
           model={"lookups": [snippet(s, 80) for s in subs] + other_tables, "expected": want},
